@@ -448,4 +448,176 @@ example :
     get s.heldD "old" = none ∧ get s.heldD "a" = some 3 ∧ get s.heldD "b" = none ∧ s.heldS = [("a", 3)] := by
   decide
 
+/-! ## Review round 2: sync lemmas shared by `History.lean` and `WdsTheorems.lean` -/
+
+/-- Names of a held set that is in sync with `W` are names of `W`. -/
+theorem names_subset_of_sync (held : Held) (W : List Res) (h : InSync held W) (n : String)
+    (hn : n ∈ names held) : n ∈ names W := by
+  have h1 : (get held n).isSome := (get_isSome_iff_mem_names _ _).mpr hn
+  rw [h n] at h1
+  exact (get_isSome_iff_mem_names _ _).mp h1
+
+/-- A full response keeps a client that already holds `W` in sync, whatever it removes. -/
+theorem sync_applyDelta_same (held : Held) (W : List Res) (removed : List String) (h : InSync held W) :
+    InSync (applyDelta held { resources := W, removed := removed }) W := by
+  intro n
+  rw [get_applyDelta]
+  cases hg : get W n with
+  | some v => rfl
+  | none =>
+    simp only []
+    split
+    · rfl
+    · rw [h n, hg]
+
+/-- A full response brings a client whose names are all on record to `W`. -/
+theorem sync_applyDelta_cover (held : Held) (W : List Res) (record : List String)
+    (hcover : ∀ n ∈ names held, n ∈ record) :
+    InSync (applyDelta held { resources := W, removed := diff record (names W) }) W := by
+  intro n
+  rw [get_applyDelta]
+  cases hg : get W n with
+  | some v => rfl
+  | none =>
+    simp only []
+    have hnot : n ∉ names W := by
+      intro hm
+      have := (get_isSome_iff_mem_names W n).mpr hm
+      simp [hg] at this
+    by_cases hh : n ∈ names held
+    · have : n ∈ diff record (names W) := mem_diff.mpr ⟨hcover n hh, hnot⟩
+      simp [this]
+    · have := get_none_of_not_mem held n hh
+      split <;> simp [this]
+
+/-! ## Review round 2: the model's own delta-aware CDS generator
+
+`delta_aware_sync` is stated for an abstract generator whose answer is "a correct delta".  Here its
+hypotheses are DISCHARGED for `deltaCdsGen` - the `BuildDeltaClusters`-like generator of the tied
+`equivd` stream - under the one condition that makes a keyed delta correct: the keys of the push
+name every resource that differs between the client's snapshot and the new one.  The condition is
+necessary (`delta_cds_keys_behind_state_witness`): it is exactly what fails in the known class
+"events behind state" (a push context already contains a change whose own key arrives later and is
+then dropped as irrelevant; e2e corpus `c03.lag-*`, known finding
+`e2e:delta-ne-sotw:events-behind-state`). -/
+
+theorem mem_sortNames (l : List String) (n : String) : n ∈ sortNames l ↔ n ∈ l := by
+  unfold sortNames
+  simp only []
+  refine Iff.trans ?_ (List.mem_mergeSort (le := fun a b => !(b < a)))
+  generalize List.mergeSort l (fun a b => !(b < a)) = s
+  induction s with
+  | nil => simp
+  | cons a as ih =>
+    simp only [List.foldr_cons]
+    revert ih
+    generalize List.foldr (fun x acc => match acc with
+      | y :: _ => if x = y then acc else x :: acc
+      | [] => [x]) [] as = acc
+    intro ih
+    cases acc with
+    | nil =>
+      have has : n ∉ as := fun h => by have := ih.mpr h; cases this
+      simp [has]
+    | cons y ys =>
+      by_cases hay : a = y
+      · subst hay
+        simp only [if_true]
+        rw [ih]
+        constructor
+        · intro h; exact List.mem_cons_of_mem _ h
+        · intro h
+          rcases List.mem_cons.mp h with e | h
+          · subst e; exact ih.mp (by simp)
+          · exact h
+      · simp only [hay, if_false]
+        rw [List.mem_cons, ih, List.mem_cons]
+
+/-- What a keyed generator sends for a key list `ch`: the current version of every key that exists. -/
+theorem get_filterMap_keys (W : List Res) (ch : List String) (n : String) :
+    get (ch.filterMap (fun m => (get W m).map (fun v => (m, v)))) n = if n ∈ ch then get W n else none := by
+  induction ch with
+  | nil => simp [get_nil]
+  | cons a as ih =>
+    simp only [List.filterMap_cons]
+    cases hg : get W a with
+    | none =>
+      simp only [Option.map_none, ih, List.mem_cons]
+      by_cases hna : n = a
+      · subst hna; simp [hg]
+      · simp [hna]
+    | some v =>
+      simp only [Option.map_some, get_cons, ih, List.mem_cons]
+      by_cases han : a = n
+      · subst han; simp [hg]
+      · have : ¬ n = a := fun e => han e.symm
+        simp [han, this]
+
+/-- **The model's delta-aware CDS generator keeps the delta client in sync** whenever the keys of the
+    push name every cluster that differs between the snapshot the client holds and the new one, and
+    the record covers what the client holds. -/
+theorem delta_cds_gen_sync (world : World) (changed wn : List String) (held : Held) (Wold : List Res)
+    (hsync : InSync held Wold) (hcover : ∀ n ∈ names held, n ∈ wn)
+    (hkeys : ∀ n, get Wold n ≠ get (world .cds) n → n ∈ changed) :
+    ∃ resp nn, pushDelta .cds wn (deltaCdsGen world changed wn) = some (resp, nn) ∧
+      InSync (applyDelta held resp) (world .cds) := by
+  apply delta_aware_sync .cds wn held (deltaCdsGen world changed wn) Wold (world .cds) rfl rfl rfl hsync
+  · intro n v h
+    simp only [deltaCdsGen] at h
+    rw [get_filterMap_keys] at h
+    split at h
+    · exact h
+    · cases h
+  · intro n hne hsome
+    simp only [deltaCdsGen]
+    rw [get_filterMap_keys]
+    have : n ∈ sortNames changed := (mem_sortNames changed n).mpr (hkeys n hne)
+    simp [this, hsome]
+  · intro n hold hnew
+    simp only [deltaCdsGen, List.mem_filter]
+    have hne : get Wold n ≠ get (world .cds) n := by
+      rw [hnew]; intro e; rw [e] at hold; cases hold
+    refine ⟨(mem_sortNames changed n).mpr (hkeys n hne), ?_⟩
+    have hheld : n ∈ names held := by
+      apply (get_isSome_iff_mem_names held n).mp
+      rw [hsync n]; exact hold
+    simp [hnew, hcover n hheld]
+  · intro n hn
+    simp only [deltaCdsGen, List.mem_filter, Bool.and_eq_true, Option.isNone_iff_eq_none] at hn
+    exact hn.2.1
+
+/-- The full statement one would like - a keyed delta push brings the client to the new snapshot
+    WHATEVER the keys are - is false ... -/
+def DeltaCdsSyncsWhateverTheKeys : Prop :=
+  ∀ (world : World) (changed wn : List String) (held : Held) (Wold : List Res),
+    InSync held Wold → (∀ n ∈ names held, n ∈ wn) →
+    ∀ resp nn, pushDelta .cds wn (deltaCdsGen world changed wn) = some (resp, nn) →
+      InSync (applyDelta held resp) (world .cds)
+
+/-- ... witness (known class "events behind state"): cluster `b` was deleted, but the push that first
+    sees the new snapshot carries the key of ANOTHER change (`a`): `b` is not removed.  (On the real
+    server the key of `b` arrives later, when neither the scope nor the previous scope know `b` any
+    more, and is dropped as irrelevant to the proxy: the delta client keeps `b` for good.) -/
+theorem delta_cds_keys_behind_state_witness : ¬ DeltaCdsSyncsWhateverTheKeys := by
+  intro h
+  let world : World := fun t => if t = .cds then [("a", 2)] else []
+  let o := deltaCdsGen world ["a"] ["a", "b"]
+  have hpd : pushDelta .cds ["a", "b"] o = some ({ resources := o.res, removed := o.deleted }, newNames .cds ["a", "b"] o) := by
+    simp [pushDelta, GenOut.nilOut, neverRemove, removedRaw, o, deltaCdsGen]
+  have hs := h world ["a"] ["a", "b"] [("a", 1), ("b", 1)] [("a", 1), ("b", 1)] (fun _ => rfl) (by decide) _ _ hpd "b"
+  rw [get_applyDelta] at hs
+  have hb : "b" ∉ sortNames ["a"] := by rw [mem_sortNames]; decide
+  have hres : get o.res "b" = none := by
+    simp only [o, deltaCdsGen]
+    rw [get_filterMap_keys]
+    simp [hb]
+  have hdel : o.deleted.contains "b" = false := by
+    have : "b" ∉ o.deleted := by
+      simp only [o, deltaCdsGen, List.mem_filter]
+      exact fun hm => hb hm.1
+    simpa using this
+  simp only [hres, hdel] at hs
+  revert hs
+  decide
+
 end IstioModel.C03
